@@ -68,6 +68,13 @@ module_cleanup(void *module_)
         }
         const_string_vector_remove(&other->rdepends, module->name);
     }
+    /* Whoever still lists us as a dependency (a dependency loop, or an
+     * aborted start-up) must not keep a pointer to our name. */
+    for (ii = 0; ii < module->rdepends.used; ++ii) {
+        struct module *other = set_find(&modules, &module->rdepends.vec[ii]);
+        if (other)
+            const_string_vector_remove(&other->depends, module->name);
+    }
     const_string_vector_clear(&module->depends);
     const_string_vector_clear(&module->rdepends);
     func = dlsym(module->handle, "module_destructor");
